@@ -551,6 +551,13 @@ class Interp:
                 self.fail('prototype_not_fresh', 'second iteration reused '
                           'objects of the first')
             prev = got
+            if rnd == 0 and spec.get('rename'):
+                # a listed type is renamed between two uses of the
+                # prototype: the prefix method goes by the current name
+                i, new = spec['rename']
+                if i < len(types):
+                    types[i].__name__ = new
+                    self.probes['proto.type_renamed_between_uses'] += 1
         self.probes['proto_iterated_twice'] += 1
         names = [types[i].__name__ for i in eff['types']]
         if len(set(names)) < len(names):
@@ -683,6 +690,9 @@ def gen_proto(rng):
         out['inst_methods'] = [[pref, rng.choice(
             [n for n in names[:ntypes] if n not in ('prefix', 'methods')]
             or ['A'])]]
+    if rng.random() < .12:
+        out['rename'] = [rng.randrange(ntypes), rng.choice(['A', 'B', 'C',
+                                                            'Z'])]
     return out
 
 
